@@ -290,8 +290,23 @@ def run(cmd, H):
             except Exception as e:
                 refute("round trip raised %s for %s: %s" % (type(e).__name__, key, str(e)[:200]), type=key, value=str(v)[:300])
 
-    def shadows(t):
-        """A field named like the root namespace of a type this definition refers to (or of itself)."""
+    def shadows(t, seen=None):
+        """A field named like the root namespace of a type this definition refers to (or of itself) - in this definition or in one it
+        nests (constructing an object constructs the nested ones, whose constructors are where the shadowed name is used)."""
+        seen = set() if seen is None else seen
+        if id(t) in seen:
+            return []
+        seen.add(id(t))
+        own = shadows_own(t)
+        for f in M.inner(t).fields_except_padding:
+            dt = f.data_type
+            while isinstance(dt, pydsdl.ArrayType):
+                dt = dt.element_type
+            if isinstance(dt, pydsdl.CompositeType):
+                own = own + shadows(dt, seen)
+        return sorted(set(own))
+
+    def shadows_own(t):
         it = M.inner(t)
         names = {f.name for f in it.fields_except_padding}
         roots = {t.root_namespace}
